@@ -46,6 +46,7 @@ type Explorer struct {
 	solverKind    string
 	solverTimeout int
 	optShuffle    bool
+	tier          int
 
 	mu        sync.Mutex
 	cond      *sync.Cond
